@@ -95,9 +95,16 @@ class Walker:
     def dest(self):
         return self.rnd.randint(1, self.fl.n)
 
-    def req_op(self, allow_schedule=True):
+    def req_op(self, allow_schedule=True, at=None):
         k = self.rnd.choice(self.kinds + (["schedule"] if allow_schedule else []))
         d = self.dest()
+        if at and self.rnd.random() < 0.25:
+            # the head of a region the acting state sits in (boundary between inner and outer transitions)
+            heads = [a for a in [at] + self.fl.ancestors(at) if self.fl.st(a)["kind"] != "S"]
+            if heads:
+                d = self.rnd.choice(heads)
+                if self.rnd.random() < 0.5:
+                    k = "change"
         if k == "schedule" and d == 1:
             d = 2           # scheduling the root is meaningless (the registries assert a parent fork)
         return "req:%s:%d:%d" % (k, d, self.payload())
@@ -109,7 +116,13 @@ class Walker:
             head = self.fl.region_head(r)
             inside = self.fl.subtree(head)
             o = self.rnd.choice(inside[1:] or inside)
+            last = getattr(self, "_last_origin", None)
+            if last and last[0] == r and self.rnd.random() < 0.3:
+                o = last[1]                         # several tasks from one origin
+            self._last_origin = (r, o)
             d = self.rnd.choice(inside if self.rnd.random() < 0.8 else list(range(1, self.fl.n + 1)))
+            if self.rnd.random() < 0.15:
+                d = o                               # a cyclic task (self-link)
             k = self.rnd.choice(self.kinds + ["schedule"])
             return "plan_append:%d:%d:%d:%s:%d" % (r, o, d, k, self.payload())
         if c < 0.80:
@@ -214,12 +227,12 @@ class Walker:
                     if c < 0.4 and self.profile["cancel"] and not first_activation:
                         ops.append("cancel")
                     elif c < 0.8 and budget > 0:
-                        ops.append(self.req_op()); budget -= 1
+                        ops.append(self.req_op(at=s)); budget -= 1
                     elif self.profile["plans"]:
                         ops.append(rnd.choice(["succeed:%d" % s, "fail:%d" % s, self.plan_op()]) if base == "exitGuard" else self.plan_op())
                 else:
                     if c < 0.45 and budget > 0:
-                        ops.append(self.req_op()); budget -= 1
+                        ops.append(self.req_op(at=s)); budget -= 1
                     elif c < 0.75 and self.profile["plans"]:
                         # marks are only put on states that are active (S_::deepEnter asserts that an entered state has none)
                         t = s if (rnd.random() < 0.7 or not active) else rnd.choice([a for a in active if a != 1] or [s])
